@@ -40,6 +40,8 @@ type vclock struct {
 	hb             time.Duration // the interval the engine must be using
 	feat           map[string]bool
 	traceSeen      int
+	asked          map[string]int // TestReqIDs received so far (every inbound TestRequest, whatever its number)
+	answered       map[string]int // Heartbeats sent carrying that TestReqID
 	resendBefore   struct {
 		in                 bool
 		stash              []int
@@ -77,6 +79,27 @@ func (v *vclock) after(s *sim, st rig.StepResult, ctx stepCtx) {
 	}
 	if ctx.kind == "in" {
 		v.lastIn = v.now
+	}
+	// (1a) a Heartbeat carries a TestReqID only as the answer to a TestRequest: over the whole
+	// history no ID is answered more often than it was asked (periodic Heartbeats carry none)
+	if ctx.kind == "in" && ctx.msgType == "1" {
+		if id := fixwire.GetS(ctx.fields, 112); id != "" {
+			v.asked[id]++
+		}
+	}
+	for _, e := range s.r.Outs(st) {
+		if e.MsgType != "0" || e.PossDup {
+			continue
+		}
+		if id := fixwire.GetS(e.Fields, 112); id != "" {
+			v.answered[id]++
+			if v.answered[id] > v.asked[id] {
+				vk.Violation(s.t, c, "C20/heartbeat-carries-unasked-testreqid", "Heartbeat %d carries TestReqID %q which was asked %d time(s) and has now been answered %d time(s) (step: %s %s)\n%s", e.Seq, id, v.asked[id], v.answered[id], ctx.kind, ctx.msgType, s.history())
+			}
+			v.feat["heartbeat-with-testreqid"] = true
+		} else if ctx.kind == "timer" && len(v.asked) > 0 {
+			v.feat["plain-heartbeat-after-a-test-request"] = true
+		}
 	}
 	// (1) an in-sequence TestRequest is answered by exactly one Heartbeat with the same TestReqID
 	if ctx.kind == "in" && ctx.msgType == "1" && ctx.hasSeq && ctx.seq == ctx.tBefore && ctx.loggedOnBefore && ctx.wellFormed {
@@ -215,7 +238,7 @@ func c20Property(t *rapid.T) {
 	}
 	s := newSim(t, c, cfg)
 	defer s.close()
-	v := &vclock{deadline: map[string]time.Duration{}, feat: map[string]bool{}}
+	v := &vclock{deadline: map[string]time.Duration{}, feat: map[string]bool{}, asked: map[string]int{}, answered: map[string]int{}}
 	s.after = append(s.after, v.after)
 	mon := &c04mon{feat: map[string]bool{}, kept: map[int]bool{}, dropped: map[int]bool{}}
 	_ = mon
